@@ -8,6 +8,7 @@
 //! generator's intention) and every result reported by `get_query_result`.
 use super::*;
 use crate::indep::x2::dns::{self, Builder, Name, NameEnc};
+use crate::indep::mini::{self, Arp};
 use crate::indep::{ip, Addr};
 use crate::indep::x2::{udp};
 use crate::util::json::Json;
@@ -111,6 +112,10 @@ pub struct DnsCfg {
     /// truncation point for Kind::Truncated is drawn per response unless fixed here
     pub trunc_at: Option<usize>,
     pub max_polls: u64,
+    /// 0: `Medium::Ip` (no neighbors); 1: Ethernet, every next hop answers ARP / neighbor solicitations
+    /// at once; 2: Ethernet, each next hop is dead (never answers) with probability 1/2; 3: Ethernet,
+    /// each next hop starts answering only some time after it was first asked
+    pub l2: u8,
 }
 
 #[derive(Default, Clone, Debug)]
@@ -119,6 +124,7 @@ pub struct DnsStats {
     pub evals: u64,
     pub queries_started: u64,
     pub queries_emitted: u64,
+    pub neighbor_requests: u64,
     pub retransmissions: u64,
     pub server_switches: u64,
     pub responses_delivered: u64,
@@ -164,6 +170,17 @@ struct Pending {
     seq: u64,
     packet: Vec<u8>,
     label: String,
+    /// already an Ethernet frame (ARP reply / neighbor advertisement): not a DNS response
+    framed: bool,
+}
+
+const HOST_MAC: [u8; 6] = [0x02, 0, 0, 0, 0, 0x02];
+
+fn mac_of(a: &Addr) -> [u8; 6] {
+    match a {
+        Addr::V4(x) => [0x02, 0x04, x[0], x[1], x[2], x[3]],
+        Addr::V6(x) => [0x02, 0x06, x[0], x[1], x[14], x[15]],
+    }
 }
 
 /// A delivered datagram as the oracle sees it.
@@ -191,6 +208,8 @@ pub struct DnsSim {
     pub classes: Vec<String>,
     pub trace: Vec<String>,
     pub trace_on: bool,
+    /// Ethernet runs: per next hop, the instant from which it answers (None: never)
+    hops: Vec<(Addr, Option<Micros>)>,
 }
 
 fn hex(b: &[u8]) -> String {
@@ -215,7 +234,11 @@ impl DnsSim {
             IpCidr::new(v6(HOST_V6), 64),
             IpCidr::new(v6(HOST_LL), 64),
         ];
-        let mut host = Host::new(Medium::Ip, 1500, HardwareAddress::Ip, cfg.iface_seed, &addrs, 0);
+        let mut host = if cfg.l2 == 0 {
+            Host::new(Medium::Ip, 1500, HardwareAddress::Ip, cfg.iface_seed, &addrs, 0)
+        } else {
+            Host::new(Medium::Ethernet, 1514, HardwareAddress::Ethernet(smoltcp::wire::EthernetAddress(HOST_MAC)), cfg.iface_seed, &addrs, 0)
+        };
         let _ = host.iface.routes_mut().add_default_ipv4_route(Ipv4Address::new(10, 0, 0, 1));
         let _ = host.iface.routes_mut().add_default_ipv6_route(Ipv6Address::from([0xfe, 0x80, 0, 0, 0, 0, 0, 0, 0, 0, 0, 0, 0, 0, 0, 1]));
         let servers: Vec<IpAddress> = cfg.servers.iter().map(|a| a.to_smol()).collect();
@@ -237,7 +260,82 @@ impl DnsSim {
             classes: Vec::new(),
             trace: Vec::new(),
             trace_on: false,
+            hops: Vec::new(),
         }
+    }
+
+    /// Ethernet runs: a frame from the host.  ARP requests and neighbor solicitations are answered
+    /// according to the run's neighbor model, IP packets go to `observe_emission`.
+    fn observe_frame(&mut self, rng: &mut Rng, frame: &[u8]) {
+        if self.cfg.l2 == 0 {
+            return self.observe_emission(rng, frame);
+        }
+        let Ok((e, payload)) = mini::parse_eth(frame) else {
+            self.stats.other_from_host += 1;
+            return;
+        };
+        let now = self.now;
+        match e.ethertype {
+            mini::ET_ARP => {
+                let Ok(a) = mini::parse_arp(payload) else { return };
+                if a.op != 1 {
+                    return;
+                }
+                let target = Addr::V4(a.tpa);
+                self.stats.neighbor_requests += 1;
+                if self.hop_answers(rng, target) {
+                    let mac = mac_of(&target);
+                    let rep = mini::build_arp(&Arp { op: 2, sha: mac, spa: a.tpa, tha: a.sha, tpa: a.spa });
+                    self.seq += 1;
+                    self.pending.push(Pending { at: now, seq: self.seq, packet: mini::eth(&a.sha, &mac, mini::ET_ARP, &rep), label: format!("ARP reply {} is-at {:02x?}", target, mac), framed: true });
+                }
+            }
+            mini::ET_IPV4 | mini::ET_IPV6 => {
+                if let Ok(i) = ip::parse(payload, true) {
+                    let body = &payload[i.payload_off..i.payload_off + i.payload_len];
+                    if i.proto == ip::PROTO_ICMPV6 && body.len() >= 24 && body[0] == 135 {
+                        let mut t = [0u8; 16];
+                        t.copy_from_slice(&body[8..24]);
+                        let target = Addr::V6(t);
+                        self.stats.neighbor_requests += 1;
+                        if !i.src.is_unspecified() && self.hop_answers(rng, target) {
+                            let mac = mac_of(&target);
+                            let na = mini::build_ndisc(&target, &i.src, 136, 0x60, &t, Some(2), &mac);
+                            let pkt = ip::build(&target, &i.src, ip::PROTO_ICMPV6, 255, &na);
+                            self.seq += 1;
+                            self.pending.push(Pending { at: now, seq: self.seq, packet: mini::eth(&e.src, &mac, mini::ET_IPV6, &pkt), label: format!("neighbor advertisement {} is-at {:02x?}", target, mac), framed: true });
+                        }
+                        return;
+                    }
+                }
+                self.observe_emission(rng, payload)
+            }
+            _ => self.stats.other_from_host += 1,
+        }
+    }
+
+    fn hop_answers(&mut self, rng: &mut Rng, a: Addr) -> bool {
+        let now = self.now;
+        let from = match self.hops.iter().find(|h| h.0 == a) {
+            Some(h) => h.1,
+            None => {
+                let f = match self.cfg.l2 {
+                    1 => Some(now),
+                    2 => {
+                        if rng.bool() {
+                            None
+                        } else {
+                            Some(now)
+                        }
+                    }
+                    _ => Some(now + *rng.pick(&[0, 400_000, 2_500_000, 6_000_000, 12_000_000])),
+                };
+                self.hops.push((a, f));
+                self.log(format!("   (next hop {} answers from {:?})", a, f));
+                f
+            }
+        };
+        matches!(from, Some(t) if t <= now)
     }
 
     fn log(&mut self, s: String) {
@@ -293,7 +391,11 @@ impl DnsSim {
                 Ok(h) => {
                     let name = dns::name_from_str(&spec.name);
                     let mdns = name.last().map(|l| l.as_slice() == b"local").unwrap_or(false);
-                    let n = self.effective_servers(mdns) as Micros;
+                    // One dns::Socket sends one datagram per dispatch and stops at the first query whose
+                    // datagram cannot leave (next hop unresolved): the queries behind it wait, their own
+                    // per-server timeouts start later.  With slow or dead next hops the bound is therefore
+                    // the sum over all queries of the run.
+                    let n = self.effective_servers(mdns) as Micros * if self.cfg.l2 >= 2 { specs.len().max(1) as Micros } else { 1 };
                     self.stats.queries_started += 1;
                     self.qs.push(Q {
                         handle: h,
@@ -322,7 +424,7 @@ impl DnsSim {
 
     fn schedule(&mut self, at: Micros, packet: Vec<u8>, label: String) {
         self.seq += 1;
-        self.pending.push(Pending { at, seq: self.seq, packet, label });
+        self.pending.push(Pending { at, seq: self.seq, packet, label, framed: false });
     }
 
     // ------------------------------------------------------------ run
@@ -350,6 +452,11 @@ impl DnsSim {
             due.sort_by_key(|p| (p.at, p.seq));
             let mut batch: Vec<Resp> = Vec::new();
             for p in due {
+                if p.framed {
+                    self.log(format!("-> host: {}", p.label));
+                    self.host.dev.rx.push_back(p.packet);
+                    continue;
+                }
                 self.stats.responses_delivered += 1;
                 if let Some(r) = judge_packet(&p.packet, &p.label) {
                     if self.qs.iter().any(|q| !q.done && self.mismatches(q, &r).is_empty()) {
@@ -372,7 +479,16 @@ impl DnsSim {
                     batch.push(r);
                 }
                 self.log(format!("-> host: {} [{}]", p.label, hex(&p.packet[..p.packet.len().min(96)])));
-                self.host.dev.rx.push_back(p.packet);
+                if self.cfg.l2 == 0 {
+                    self.host.dev.rx.push_back(p.packet);
+                } else {
+                    // from the station that owns the source address (a wrong-source response comes from that other station)
+                    let (et, smac) = match ip::parse(&p.packet, false) {
+                        Ok(i) => (if i.src.is_v4() { mini::ET_IPV4 } else { mini::ET_IPV6 }, mac_of(&i.src)),
+                        Err(_) => (if p.packet.first().map(|b| b >> 4) == Some(6) { mini::ET_IPV6 } else { mini::ET_IPV4 }, [0x02, 0xee, 0, 0, 0, 1]),
+                    };
+                    self.host.dev.rx.push_back(mini::eth(&HOST_MAC, &smac, et, &p.packet));
+                }
             }
 
             // ---- poll
@@ -380,7 +496,7 @@ impl DnsSim {
             self.stats.polls += 1;
             let progressed = out.rx_count > 0 || !out.tx.is_empty();
             for rec in &out.tx {
-                self.observe_emission(rng, &rec.data);
+                self.observe_frame(rng, &rec.data);
             }
 
             // ---- results
@@ -394,8 +510,8 @@ impl DnsSim {
                     if now > self.qs[k].deadline {
                         let q = &self.qs[k];
                         let d = format!(
-                            "query {:?} started at t={}us is still Pending at t={}us: bound {} server(s) x 25 s exceeded; emissions (time, destination): {:?}",
-                            q.name_str, q.started_at, now, self.effective_servers(q.mdns), q.emissions.iter().map(|e| (e.0, e.1.to_string())).collect::<Vec<_>>()
+                            "query {:?} started at t={}us is still Pending at t={}us: bound {} server(s) x 25 s{} exceeded; emissions (time, destination): {:?}",
+                            q.name_str, q.started_at, now, self.effective_servers(q.mdns), if self.cfg.l2 >= 2 { format!(" x {} queries of the run (next hops slow or dead)", self.cfg.queries.len()) } else { String::new() }, q.emissions.iter().map(|e| (e.0, e.1.to_string())).collect::<Vec<_>>()
                         );
                         self.violate("dns:termination:pending-beyond-bound", d);
                         self.qs[k].done = true;
@@ -573,7 +689,10 @@ impl DnsSim {
                 }
                 Err(()) => {
                     self.stats.failed += 1;
-                    let first = q.emissions.first().map(|e| e.0);
+                    // on Ethernet (neighbor discovery first, at most one request per second) the first transmission on the wire is later than the
+                    // instant the resolver turned to the server: the 10 s are then counted from the start
+                    let relaxed = self.cfg.l2 >= 1;
+                    let first = if relaxed { q.emissions.first().map(|_| q.started_at) } else { q.emissions.first().map(|e| e.0) };
                     let timed_out = match first {
                         Some(f) => now >= f + 10 * SEC,
                         None => false,
@@ -592,7 +711,7 @@ impl DnsSim {
                         let kind = best_miss.as_ref().map(|b| b.1.clone()).unwrap_or_else(|| "no-response".into());
                         self.violate(
                             &format!("dns:failure:from-non-matching-response:{}", kind),
-                            format!("{} was reported Failed at t={}us, less than 10 s after its first transmission (t={}us), although {}", qdesc, now, first.unwrap(), why),
+                            format!("{} was reported Failed at t={}us, less than 10 s after its first transmission{} (t={}us), although {}", qdesc, now, if relaxed { " at the earliest" } else { "" }, first.unwrap(), why),
                         );
                     } else {
                         self.class("failed:never-emitted".into());
@@ -689,7 +808,12 @@ impl DnsSim {
             q.emissions.iter().rev().find(|e| e.1 != i.dst).map(|last_other| q.emissions.iter().find(|e| e.1 == last_other.1).unwrap().0)
         };
         let name_str = self.qs[k].name_str.clone();
-        if let Some(&last) = prev_same.last() {
+        if self.cfg.l2 >= 1 {
+            // (on Ethernet a datagram can be held back by neighbor discovery - one request per second for
+            // all neighbors - and by a query in front of it whose next hop does not answer: the spacing
+            // seen on the wire is then not the resolver's)
+            self.stats.retransmissions += prev_same.len().min(1) as u64;
+        } else if let Some(&last) = prev_same.last() {
             self.stats.retransmissions += 1;
             self.stats.spacing_checks += 1;
             self.stats.evals += 1;
@@ -715,6 +839,8 @@ impl DnsSim {
             self.stats.spacing_checks += 1;
             self.stats.evals += 1;
             let d = now - first_prev;
+            // (with slow or dead next hops the first transmission to a server can be later than the
+            // instant the resolver turned to it: the 10 s are then not observable on the wire)
             if d < 10 * SEC {
                 self.violate(
                     "dns:server-switch:before-10s",
